@@ -247,6 +247,47 @@ def check_out_guard(rep):
                      key='M-OUT-GUARD-L0|%s|%#x' % (sym, i.addr - f.entry), sample='%s: %d-byte store after cmp with m_out_end (%d guard edges)' % (sym, width, g) if not isinstance(g, str) and sym.endswith('_04') else None)
 
 
+def check_stored_bound(rep, mod):
+    """isal_deflate_stateless falls back to stored blocks when the output space is at least `stored_len` and reports overflow below it; for every
+    wrapper the bound has to include exactly the header and trailer that wrapper emits.  With avail_in fixed to 0 and gzip_flag to each of its five
+    values the bound is a compile-time constant: constant propagation through the function (CONSTINTERP) yields it."""
+    import constinterp, mirror
+    R = rep.rule('T-STORED-WRAP', 'isal_deflate_stateless: for each of the five wrapper modes, the constant the output space is compared with for an empty input (constant propagation with gzip_flag fixed, avail_in = 0) '
+                 'equals one stored-block header (5) + the RFC 1952 / RFC 1950 header size of that mode (10 / 2 / none) + its trailer size (8 / 4 / none)', floor=5, unit='wrapper modes')
+    f = mod.funcs.get('isal_deflate_stateless')
+    if f is None:
+        raise AnalysisBroken('isal_deflate_stateless not found')
+    P = irrules.prov(mod, f)
+    off = c19.field_offsets('struct isal_zstream', ['gzip_flag', 'avail_in', 'avail_out'])
+    exp = {'IGZIP_DEFLATE': 5, 'IGZIP_GZIP': 5 + 10 + 8, 'IGZIP_GZIP_NO_HDR': 5 + 8, 'IGZIP_ZLIB': 5 + 2 + 4, 'IGZIP_ZLIB_NO_HDR': 5 + 4}
+    vals, drop = mirror.c_values('default', ['igzip_lib.h'], [(n, n) for n in exp], 'c10_flags')
+    if drop:
+        raise AnalysisBroken('wrapper flags %s not found' % drop)
+    for n, want in sorted(exp.items()):
+        R.instance()
+        seen = {}
+
+        def hook(i, flag=vals[n]):
+            at = P.atoms(i.ops[0])
+            if at == {('param', 0, off['gzip_flag'])}:
+                return flag
+            if at == {('param', 0, off['avail_in'])}:
+                return 0
+            return None
+
+        def obs(i, env, ip):
+            if i.op == 'icmp' and i.extra['pred'] in ('uge', 'ult', 'ugt', 'ule'):
+                a, b = ip.val(i.ops[0], env), ip.val(i.ops[1], env)
+                if b != constinterp.TOP and a == constinterp.TOP and ('mem', ('param', 0, off['avail_out'])) in P.deps(i.ops[0]):
+                    seen.setdefault(b, i)
+        constinterp.Interp(mod, f, obs, load_hook=hook).run()
+        if not seen:
+            raise AnalysisBroken('isal_deflate_stateless [%s]: no comparison of the output space with a constant found' % n)
+        R.check(set(seen) == {want}, mod.where(f, list(seen.values())[0]), 'mode %s: the output space is compared with %s for an empty input; one stored-block header plus this mode\'s header and trailer need %d bytes - '
+                'with a smaller bound the call succeeds without room for the trailer, with a larger one it refuses a buffer that is big enough' % (n, sorted(seen), want), key='T-STORED-WRAP|%s' % n,
+                sample='%s: bound %d' % (n, want))
+
+
 def check_isfull_c(rep, mod):
     """portable encoders: the 64-bit bit buffer is flushed by write_bits() / flush_bits() with an 8-byte store at m_out_buf; set_buf() keeps 8 bytes in
     reserve behind m_out_end, enough for exactly one such store after is_full() said no."""
@@ -348,4 +389,5 @@ def main(tier):
         c01.check_wrapper_consts(rep, c)
     check_out_guard(rep)
     check_isfull_c(rep, mod)
+    check_stored_bound(rep, mod)
     return rep.finish()
